@@ -16,7 +16,7 @@ table = "| Seed | Change (independently written; passes the 74 pinned tests) | N
 p = "/verif/DESIGN.md"
 s = open(p).read()
 if B in s:
-    s = re.sub(re.escape(B) + r".*?" + re.escape(E), B + "\n" + table + "\n" + E, s, flags=re.S)
+    s = re.sub(re.escape(B) + r".*?" + re.escape(E), lambda _m: B + "\n" + table + "\n" + E, s, flags=re.S)
 else:
     s = s.replace("SEEDED-TABLE-PLACEHOLDER", B + "\n" + table + "\n" + E)
 open(p, "w").write(s)
